@@ -434,7 +434,11 @@ class SpecEval:
         call = n.args[0]
         sf = SPECS[call.func.id]
         args = [self.ev(a, ctx) for a in call.args]
-        self.unfold(sf, args, ctx)
+        ctx.reveal_depth = 3
+        try:
+            self.unfold(sf, args, ctx)
+        finally:
+            ctx.reveal_depth = 0
         return VBool(True)
 
     # --- spec functions ---------------------------------------------------------------------------
@@ -467,7 +471,10 @@ class SpecEval:
         seen = getattr(ctx.facts, '_seen', None)
         env = dict(zip(sf.params, params))
         c2 = ctx.with_env(env)
-        c2.unfold = 0
+        # an explicit reveal also unfolds the recursive applications directly inside the revealed body once
+        # (e.g. enc_body(p) -> enc_DELETE(p) -> enc_spis(p.spis, 0)); automatic unfolding stays at one level
+        c2.unfold = max(getattr(ctx, 'reveal_depth', 0) - 1, 0)
+        c2.reveal_depth = c2.unfold
         body = self.ev(sf.body, c2)
         ctx.facts.append(app == to_z3(body, sf.returns))
         for f in sf.facts:
